@@ -126,6 +126,19 @@ def fit_rows(ln, nn, seed, rows):
     return ops.call(m, "predict_expectations", None if cf else Q)
 
 
+def feed_rows(ln, nn, seed, rows):
+    """The same observations presented one call at a time: fit(first row), partial_fit(each further row)."""
+    cfg = A.config(ln, nn, seed=seed)
+    cf = ops.is_context_free(cfg)
+    m = ops.build(cfg)
+    for i, x in enumerate(rows):
+        r = x[2] if ln not in ("ts", "tsb") else int(x[2] >= 1)
+        if ln == "pop":
+            r = abs(r)
+        ops.apply(m, ["fit" if i == 0 else "partial_fit", [x[0]], [r], None if cf else [list(x[1])]])
+    return ops.call(m, "predict_expectations", None if cf else Q)
+
+
 def part_b(shard, acc):
     ln, nn, seed = shard["ln"], shard["nn"], shard["seed"]
     tol = 1e-9 if ln in A.LINEAR_LPS else 0.0
@@ -144,6 +157,25 @@ def part_b(shard, acc):
                     acc.violation("b %s/%s" % (ln, nn), {"part": "b", "ln": ln, "nn": nn, "seed": seed,
                                                           "rows": [list(r) for r in rows], "perm": list(perm)},
                                   "rows in order %r give %r; in the original order %r" % (list(perm), got, base))
+    # the same, with the observations arriving one call at a time (n <= 4)
+    if nn != "lsh":          # LSH draws its hyperplanes in the first fit: row-at-a-time feeding is covered by C06 / C11
+        for n in range(2, 5):
+            for subset in itertools.combinations(range(len(PERM_ROWS)), n):
+                rows = [PERM_ROWS[i] for i in subset]
+                base = feed_rows(ln, nn, seed, rows)
+                for perm in itertools.permutations(range(n)):
+                    if list(perm) == list(range(n)):
+                        continue
+                    got = feed_rows(ln, nn, seed, [rows[i] for i in perm])
+                    acc.traces += 1
+                    key = (ln, nn, "one-at-a-time", subset, perm)
+                    acc.state(key)
+                    acc.case(key)
+                    if not ops.same(got, base, rtol=max(tol, 1e-12), atol=max(tol, 1e-12)):
+                        acc.violation("b1 %s/%s" % (ln, nn), {"part": "b1", "ln": ln, "nn": nn, "seed": seed,
+                                                               "rows": [list(r) for r in rows], "perm": list(perm)},
+                                      "rows fed one at a time in order %r give %r; in the original order %r" % (
+                                          list(perm), got, base))
     acc.sample({"part": "b", "combination": [ln, nn], "rows": [list(r) for r in PERM_ROWS[:3]], "permutations": "all 3!"})
 
 
@@ -222,6 +254,12 @@ def replay(w):
         got = scenario_a(w["ln"], w["nn"], w["seed"], mp)
         tol = 1e-12 if w["ln"] in A.LINEAR_LPS else 0.0
         return [] if ops.same(got, relabel_value(base, mp), rtol=tol, atol=tol) else ["relabelled outputs differ: %r" % (got,)]
+    if w["part"] == "b1":
+        rows = [(r[0], r[1], r[2]) for r in w["rows"]]
+        tol = 1e-9 if w["ln"] in A.LINEAR_LPS else 1e-12
+        base = feed_rows(w["ln"], w["nn"], w["seed"], rows)
+        got = feed_rows(w["ln"], w["nn"], w["seed"], [rows[i] for i in w["perm"]])
+        return [] if ops.same(got, base, rtol=tol, atol=tol) else ["one-at-a-time permuted rows give %r, original %r" % (got, base)]
     if w["part"] == "b":
         rows = [(r[0], r[1], r[2]) for r in w["rows"]]
         tol = 1e-9 if w["ln"] in A.LINEAR_LPS else 0.0
